@@ -201,3 +201,108 @@ func sweepExitCodes(prog *Program) Sweep {
 func init() {
 	sweepTable["C17"] = []sweepFn{sweepFSWriters, sweepWriteFilesCallers, sweepExitCodes}
 }
+
+// ---------------------------------------------------------------------------
+// C18: imports are derived from jen.Qual; no reflect/unsafe; only type/func/init declarations
+
+// the first argument of every jen.Qual call is one of the allowed package expressions
+func sweepQualWhitelist(prog *Program) Sweep {
+	s := Sweep{Name: "sweep.C18.qual-package-whitelist", Detail: `the package argument of every jen.Qual call in the module is obj.Pkg().Path() of a user object, a definition's Package, the configured wrapErrorsUsing package (pkg parameter of WrapErrorsUsing) or the literal "fmt"; no string constant "reflect" or "unsafe" occurs in non-test code`}
+	prog.extCalls(func(fi *FuncInfo, c *types.Func, ce *ast.CallExpr) {
+		if extKey(c) != "jen.Qual" {
+			return
+		}
+		s.Sites++
+		arg := ast.Unparen(ce.Args[0])
+		txt := types.ExprString(arg)
+		info := fi.Pkg.TypesInfo
+		ok := false
+		if tv, isConst := info.Types[arg]; isConst && tv.Value != nil {
+			ok = constantString(tv.Value) == "fmt"
+		} else {
+			switch {
+			case strings.HasSuffix(txt, ".Pkg().Path()"):
+				ok = true
+			case txt == "def.Package" || txt == "m.Package" || txt == "definition.Package":
+				ok = true
+			case txt == "pkg" && fi.Key == "builder.ErrorPath.WrapErrorsUsing":
+				ok = true
+			}
+		}
+		if !ok {
+			s.Offenders = append(s.Offenders, fmt.Sprintf("%s: jen.Qual(%s, ...) at %s", fi.Key, txt, prog.Fset.Position(ce.Pos())))
+		}
+	})
+	// no "reflect"/"unsafe" string constants anywhere in non-test code
+	for _, fi := range prog.Funcs {
+		ast.Inspect(fi.Decl.Body, func(n ast.Node) bool {
+			if bl, ok := n.(*ast.BasicLit); ok {
+				if tv, ok := fi.Pkg.TypesInfo.Types[bl]; ok && tv.Value != nil {
+					v := constantString(tv.Value)
+					if v == "reflect" || v == "unsafe" {
+						s.Offenders = append(s.Offenders, fmt.Sprintf("%s mentions %q at %s", fi.Key, v, prog.Fset.Position(bl.Pos())))
+					}
+				}
+			}
+			return true
+		})
+	}
+	s.Status = "discharged"
+	if len(s.Offenders) > 0 {
+		s.Status = "failed"
+	}
+	return s
+}
+
+// "fmt" is only referenced from the error-wrapping and enum @error/@panic code
+func sweepFmtUse(prog *Program) Sweep {
+	s := Sweep{Name: "sweep.C18.fmt-only-for-wrapErrors-and-enum-actions", Detail: `jen.Qual("fmt", ...) occurs only in builder.ErrorPath.WrapErrors (wrapErrors) and builder.caseAction (@error/@panic)`}
+	prog.extCalls(func(fi *FuncInfo, c *types.Func, ce *ast.CallExpr) {
+		if extKey(c) != "jen.Qual" {
+			return
+		}
+		if tv, ok := fi.Pkg.TypesInfo.Types[ce.Args[0]]; ok && tv.Value != nil && constantString(tv.Value) == "fmt" {
+			s.Sites++
+			if fi.Key != "builder.ErrorPath.WrapErrors" && fi.Key != "builder.caseAction" {
+				s.Offenders = append(s.Offenders, fi.Key)
+			}
+		}
+	})
+	s.Status = "discharged"
+	if len(s.Offenders) > 0 {
+		s.Status = "failed"
+	}
+	return s
+}
+
+// the only calls that add top-level declarations to a jen.File are in appendGenerated and fileManager.Get,
+// and none of them adds a var/const declaration
+func sweepFileDecls(prog *Program) Sweep {
+	s := Sweep{Name: "sweep.C18.only-type-func-init-declarations", Detail: "methods of *jen.File are called only in generator.appendGenerated (Id/Comment/Type/Func/Add), generator.fileManager.Get (HeaderComment) and generator.fileManager.renderFiles (Render); jen.Var/jen.Const at file level are never used there"}
+	allowed := map[string]map[string]bool{
+		"generator.generator.appendGenerated":  {"Id": true, "Comment": true, "Type": true, "Func": true, "Add": true},
+		"generator.fileManager.Get":            {"HeaderComment": true},
+		"generator.fileManager.renderFiles":    {"Render": true},
+	}
+	prog.extCalls(func(fi *FuncInfo, c *types.Func, ce *ast.CallExpr) {
+		key := extKey(c)
+		if !strings.HasPrefix(key, "jen.File.") {
+			return
+		}
+		s.Sites++
+		m := strings.TrimPrefix(key, "jen.File.")
+		if !allowed[fi.Key][m] {
+			s.Offenders = append(s.Offenders, fmt.Sprintf("%s calls (*jen.File).%s", fi.Key, m))
+		}
+	})
+	s.Status = "discharged"
+	if len(s.Offenders) > 0 {
+		s.Status = "failed"
+	}
+	return s
+}
+
+func init() {
+	sweepTable["C18"] = []sweepFn{sweepQualWhitelist, sweepFmtUse, sweepFileDecls}
+	sweepTable["C15"] = []sweepFn{sweepFSWriters, sweepWriteFilesCallers}
+}
